@@ -19,6 +19,7 @@ package main
 
 import (
 	"fmt"
+	"os"
 	"strings"
 	"time"
 
@@ -81,6 +82,10 @@ type program struct {
 	Settle bool
 	// TinyCache: HashLimit = 1, so that a second item evicts the first one from the announce cache
 	TinyCache bool
+	// RecvBurst: the receipt queue holds one batch (MaxQueuedBatches = 1) and the driver does not wait between
+	// consecutive receipt reports, so that a report can find the queue full (it must then wait, not get lost);
+	// both reports travel through the same queue, so the script order is still the consumption order
+	RecvBurst bool
 }
 
 func (p program) String() string {
@@ -94,6 +99,9 @@ func (p program) String() string {
 	}
 	if p.TinyCache {
 		mode += " hash-limit=1"
+	}
+	if p.RecvBurst {
+		mode += " receipt-queue=1,no-wait-between-receipts"
 	}
 	return mode + " [" + strings.Join(s, " ") + "]"
 }
@@ -140,7 +148,11 @@ func body(p program) func() {
 		if p.TinyCache {
 			hashLimit = 1
 		}
-		f := itemsfetcher.New(itemsfetcher.Config{ForgetTimeout: forget, ArriveTimeout: arrive, GatherSlack: slack, HashLimit: hashLimit, MaxBatch: 2, MaxParallelRequests: 1, MaxQueuedBatches: 4},
+		queued := 4
+		if p.RecvBurst {
+			queued = 1
+		}
+		f := itemsfetcher.New(itemsfetcher.Config{ForgetTimeout: forget, ArriveTimeout: arrive, GatherSlack: slack, HashLimit: hashLimit, MaxBatch: 2, MaxParallelRequests: 1, MaxQueuedBatches: queued},
 			itemsfetcher.Callback{
 				OnlyInterested: func(ids []interface{}) []interface{} {
 					var out []interface{}
@@ -208,7 +220,7 @@ func body(p program) func() {
 				sched.Fail("api-error: NotifyAnnounces: %v", err)
 			}
 		}
-		for _, o := range p.Script {
+		for si, o := range p.Script {
 			x.idx++
 			switch o.K {
 			case oAnn:
@@ -242,7 +254,7 @@ func body(p program) func() {
 			case oAdvance:
 				sleep(o.D)
 			}
-			if p.Settle {
+			if p.Settle && !(p.RecvBurst && o.K == oRecv && si+1 < len(p.Script) && p.Script[si+1].K == oRecv) {
 				sched.Quiesce()
 			} else {
 				sched.Point("driver step")
@@ -430,6 +442,12 @@ func main() {
 					if okTiny {
 						progs = append(progs, program{Script: append([]op{}, cur...), Settle: true, TinyCache: true})
 					}
+					for qi := 0; qi+1 < len(cur); qi++ {
+						if cur[qi].K == oRecv && cur[qi+1].K == oRecv {
+							progs = append(progs, program{Script: append([]op{}, cur...), Settle: true, RecvBurst: true})
+							break
+						}
+					}
 					break
 				}
 			}
@@ -445,6 +463,27 @@ func main() {
 		}
 	}
 	gen(nil)
+	// receipts of two different items in a row against a one-batch receipt queue (the quick alphabet reports item 1
+	// only): the second report may find the queue full and must still take effect
+	for _, first := range []int{1, 2} {
+		for _, pre := range [][]op{nil, {{K: oAdvance, D: arrive / 8}}, {{K: oAdvance, D: arrive + time.Millisecond}}} {
+			for _, peer2 := range []string{"p", "q"} {
+				sc := []op{{K: oAnn, Peer: "p", Item: 1}, {K: oAnn, Peer: peer2, Item: 2}}
+				sc = append(sc, pre...)
+				sc = append(sc, op{K: oRecv, Item: first}, op{K: oRecv, Item: 3 - first})
+				progs = append(progs, program{Script: sc, Settle: true, RecvBurst: true})
+			}
+		}
+	}
+	if os.Getenv("VERIF_C16_ONLY") == "recvburst" { // development aid: only the receipt-burst programs
+		var keep []program
+		for _, p := range progs {
+			if p.RecvBurst {
+				keep = append(keep, p)
+			}
+		}
+		progs = keep
+	}
 	c.Set("programs_total", len(progs))
 	c.Parallel(len(progs), func(i int) {
 		p := progs[i]
